@@ -82,10 +82,21 @@ func (e *Env) requireResult(rule string, fn *ssa.Function, o gate.Outcome, idx i
 		t := prov.Of(r.Results[idx])
 		if prov.Match(pattern, t) {
 			e.R.OK(rule, key, e.P.InstrPos(r), what+": "+short(t))
+		} else if strings.HasPrefix(pattern, "call:(*bytes.Buffer).Bytes(local:") && gate.LocalByteAcc(r.Results[idx]) && isAppend(r.Results[idx]) {
+			e.R.OK(rule, key, e.P.InstrPos(r), what+": the locally appended byte slice (instead of a local buffer's Bytes())")
 		} else {
 			e.R.Fail(rule, key, e.P.InstrPos(r), "value returned on success is not "+what, "got  "+t, "want "+pattern)
 		}
 	}
+}
+
+func isAppend(v ssa.Value) bool {
+	c, ok := v.(*ssa.Call)
+	if !ok {
+		return false
+	}
+	b, ok := c.Call.Value.(*ssa.Builtin)
+	return ok && b.Name() == "append"
 }
 
 // requireStore: fn stores to an address matching addrPat, and every such
@@ -138,6 +149,26 @@ func short(s string) string {
 		return s[:157] + "..."
 	}
 	return s
+}
+
+// collects: the instruction keeps the element of this iteration: an
+// append(xs, elem) whose element array mentions typeSub, or a store
+// xs[i] = elem into a slice made with one slot per element of the ranged
+// collection (make(T, len(...))) at the loop's own index.
+func collects(typeSub string) func(ssa.Instruction) bool {
+	return func(in ssa.Instruction) bool {
+		switch x := in.(type) {
+		case *ssa.Call:
+			return prov.CalleeName(&x.Call) == "builtin:append" && len(x.Call.Args) == 2 && strings.Contains(prov.Of(x.Call.Args[1]), typeSub)
+		case *ssa.Store:
+			ia, ok := x.Addr.(*ssa.IndexAddr)
+			if !ok || !strings.Contains(x.Val.Type().String(), typeSub) {
+				return false
+			}
+			return prov.Of(ia.Index) == "rangeidx" && prov.Match("make(*,len(*))", prov.Of(ia.X))
+		}
+		return false
+	}
 }
 
 func either(key, desc string, gs ...gate.Gate) gate.Gate { return gate.Any(key, desc, gs...) }
@@ -275,26 +306,8 @@ func (e *Env) dominatedByGates(rule string, fn *ssa.Function, cfg gcfg, calleePa
 	stop := map[*ssa.BasicBlock]bool{}
 	for _, b := range fn.Blocks {
 		for _, in := range b.Instrs {
-			isSite := func(in ssa.Instruction) bool {
-				c, ok := in.(ssa.CallInstruction)
-				if !ok || !prov.Match(calleePat, prov.CalleeName(c.Common())) {
-					return false
-				}
-				var args []ssa.Value
-				if c.Common().IsInvoke() {
-					args = append(args, c.Common().Value)
-				}
-				args = append(args, c.Common().Args...)
-				for i, p := range argPats {
-					if p == "" {
-						continue
-					}
-					if i >= len(args) || !prov.Match(p, prov.Of(args[i])) {
-						return false
-					}
-				}
-				return true
-			}
+			// (callMatches knows the equivalent spellings of a call)
+			isSite := gate.CallInstr("", calleePat, argPats...).Instr
 			if isSite(in) || instrInHelper(e, in, isSite, 0) {
 				stop[b] = true
 			}
@@ -339,15 +352,24 @@ func (e *Env) callOrder(rule, key string, fn *ssa.Function, first, second gate.G
 	var a, b ssa.Instruction
 	for _, blk := range fn.Blocks {
 		for _, in := range blk.Instrs {
-			if first.Instr(in) && a == nil {
+			if (first.Instr(in) || helperContains(e, in, first, 0)) && a == nil {
 				a = in
 			}
-			if second.Instr(in) && b == nil {
+			if (second.Instr(in) || helperContains(e, in, second, 0)) && b == nil {
 				b = in
 			}
 		}
 	}
 	k := load.FuncName(fn) + ":" + key
+	if a != nil && a == b {
+		// both steps live in one helper the rule tables do not know: decided there
+		if helperOrder(e, a, first, second) {
+			e.R.OK(rule, k, e.P.InstrPos(a), what+" (inside the helper called here)")
+		} else {
+			e.R.Fail(rule, k, e.P.InstrPos(a), "order violated inside the helper called here: "+what)
+		}
+		return
+	}
 	if a == nil || b == nil {
 		e.R.Fail(rule, k, e.P.Pos(fn.Pos()), "cannot find both calls ("+first.Desc+" / "+second.Desc+")")
 		return
@@ -459,31 +481,68 @@ func countedLoop(e *Env, rule string, fn *ssa.Function, boundPat string, gates .
 	}
 }
 
-// afterStore: from every store to an address matching addrPat, every path to
-// an exit with outcome o passes each gate.
+// afterStore: for every store to an address matching addrPat (in fn, or in a
+// helper the rule tables do not know, its parameters standing for the call's
+// arguments), every path from the store to an exit with outcome o passes each
+// gate, or every path from the function's entry to the store already passed
+// it (the value was checked before it was stored).
 func (e *Env) afterStore(rule string, fn *ssa.Function, addrPat string, o gate.Outcome, gates ...gate.Gate) {
 	if fn == nil {
 		return
 	}
 	name := load.FuncName(fn)
-	ctx := gate.New(e.P, e.P.VTA())
 	n := 0
-	for _, b := range fn.Blocks {
-		for _, in := range b.Instrs {
-			st, ok := in.(*ssa.Store)
-			if !ok || !prov.Match(addrPat, prov.Of(st.Addr)) {
-				continue
-			}
-			n++
-			for _, g := range gates {
-				key := fmt.Sprintf("%s:after-store(%s)#%d:%s", name, addrPat, n, g.Key)
-				ok, w := ctx.EstablishedFrom(fn, b, o, g, nil)
-				if ok {
-					e.R.OK(rule, key, e.P.InstrPos(in), "after the store every path to "+o.String()+" passes "+g.Desc)
-				} else {
-					e.R.Fail(rule, key, e.P.InstrPos(in), "after the store a path reaches "+o.String()+" without "+g.Desc, w...)
+	type unit struct {
+		f    *ssa.Function
+		call *ssa.Call
+		o    gate.Outcome
+	}
+	units := []unit{{fn, nil, o}}
+	for _, c := range unknownHelperCalls(e, fn) {
+		h := c.Call.StaticCallee()
+		ho := gate.Outcome{Kind: gate.AnyReturn}
+		if res := h.Signature.Results(); res.Len() > 0 && res.At(res.Len()-1).Type().String() == "error" {
+			ho = gate.Outcome{Kind: gate.ErrNil, Idx: res.Len() - 1}
+		}
+		units = append(units, unit{h, c, ho})
+	}
+	for _, u := range units {
+		if u.call != nil {
+			prov.PushSubst(u.f, &u.call.Call)
+		}
+		ctx := gate.New(e.P, e.P.VTA())
+		for _, b := range u.f.Blocks {
+			for _, in := range b.Instrs {
+				st, ok := in.(*ssa.Store)
+				if !ok || !prov.Match(addrPat, prov.Of(st.Addr)) {
+					continue
+				}
+				n++
+				for _, g := range gates {
+					key := fmt.Sprintf("%s:after-store(%s)#%d:%s", name, addrPat, n, g.Key)
+					ok, w := ctx.EstablishedFrom(u.f, b, u.o, g, nil)
+					if ok {
+						e.R.OK(rule, key, e.P.InstrPos(in), "after the store every path to "+u.o.String()+" passes "+g.Desc)
+						continue
+					}
+					// checked before it was stored?
+					_, w2 := ctx.EstablishedFrom(u.f, u.f.Blocks[0], gate.Outcome{Kind: gate.NoExit}, g, map[*ssa.BasicBlock]bool{b: true})
+					reached := b == u.f.Blocks[0]
+					for _, line := range w2 {
+						if strings.HasPrefix(line, "reaches block") {
+							reached = true
+						}
+					}
+					if !reached {
+						e.R.OK(rule, key, e.P.InstrPos(in), "every path to the store has passed "+g.Desc)
+					} else {
+						e.R.Fail(rule, key, e.P.InstrPos(in), "after the store a path reaches "+u.o.String()+" without "+g.Desc, w...)
+					}
 				}
 			}
+		}
+		if u.call != nil {
+			prov.PopSubst()
 		}
 	}
 	if n == 0 {
@@ -767,10 +826,11 @@ func helperOrder(e *Env, in ssa.Instruction, g1, g2 gate.Gate) bool {
 	var s1, s2 []ssa.Instruction
 	for _, b := range h.Blocks {
 		for _, i2 := range b.Instrs {
-			if g1.Instr != nil && g1.Instr(i2) {
+			// (a step may itself sit one helper further down)
+			if g1.Instr != nil && (g1.Instr(i2) || helperContains(e, i2, g1, 1)) {
 				s1 = append(s1, i2)
 			}
-			if g2.Instr != nil && g2.Instr(i2) {
+			if g2.Instr != nil && (g2.Instr(i2) || helperContains(e, i2, g2, 1)) {
 				s2 = append(s2, i2)
 			}
 		}
